@@ -617,6 +617,7 @@ func (f fedImpl) AuthenticatePostInbox(c context.Context, w http.ResponseWriter,
 	return f.authenticate("AuthenticatePostInbox", c)
 }
 func (f fedImpl) Blocked(c context.Context, iris []*url.URL) (bool, error) {
+	f.yield("Blocked:entry") // the application looks at what it was handed only now: other requests may have run in between
 	var l []interface{}
 	for _, u := range iris {
 		l = append(l, us(u))
